@@ -151,3 +151,44 @@ def gen_single_stream(rng, columns=None, rows=None, types="1234M", density=0.5, 
                     ks = rng.randint(0, 50)
                 out.append([b.numerator, b.denominator, c, ch, ks])
     return columns, out
+
+
+def gen_chain(rng, target=None, malformed=0.0):
+    """A long single-player stream in which, once the first hold has started, some hold or roll is open at every
+    moment (a chain of overlapping holds over 3-6 columns) with taps and mines in the free columns: whatever a
+    consumer buffers "until no hold is open" grows to hundreds of notes. `malformed` sprinkles orphan tails and
+    interrupting notes. -> (columns, [[num, den, col, char, ks]])"""
+    columns = rng.randint(3, 6)
+    target = target or rng.choice([300, 420, 560, 700])
+    den = rng.choice([1, 2, 4, 4, 12])
+    open_ = set()
+    out = []
+    r = 0
+    while len(out) < target:
+        row = []
+        for c in range(columns):
+            x = rng.random()
+            if c in open_:
+                # close only while another hold stays open (or one opens on this very row, decided below)
+                if x < 0.35:
+                    if len(open_) > 1:
+                        row.append([c, "3"])
+                        open_.discard(c)
+                elif x < 0.35 + malformed:
+                    row.append([c, rng.choice("1M2")])   # interrupts the open hold
+                    if row[-1][1] != "2":
+                        open_.discard(c)
+            else:
+                if x < 0.30:
+                    row.append([c, rng.choice("224")])
+                    open_.add(c)
+                elif x < 0.55:
+                    row.append([c, rng.choice("11M")])
+                elif x < 0.55 + malformed:
+                    row.append([c, "3"])              # orphan tail
+        for c, ch in row:
+            out.append([r, den, c, ch, None])
+        r += 1
+    for c in sorted(open_):
+        out.append([r, den, c, "3", None])
+    return columns, out
